@@ -283,9 +283,9 @@ def cdata_literal(it, fn, a):
 
 CONTRACTS += [
     Contract("ofxtools.Parser:TreeBuilder.feed", args=[A_("depth")], call=check_deep_faults,
-             ensures=[("faulted-deep-bodies-refused-unless-still-valid", "result == []")], cases=lambda tier: [[d] for d in ((10, 63, 64, 65, 66, 130) if tier != "thorough" else (10, 63, 64, 65, 66, 100, 130, 260, 600))],
+             ensures=[("faulted-deep-bodies-refused-unless-still-valid", "result == []")], cases=lambda tier: [[d] for d in ((10, 63, 64, 65, 66, 130) if tier != "thorough" else (10, 63, 64, 65, 66, 100, 130, 260))],
              native_only=True, shards=6,
-             notes="chains of 10 .. 130 (600 thorough) nested aggregates, one canonical rendering, every single fault (truncation at each character, each end tag deleted / renamed / misspelt / duplicated, text and CDATA after it, transpositions, stray end tags)",
+             notes="chains of 10 .. 130 (260 thorough) nested aggregates, one canonical rendering, every single fault (truncation at each character, each end tag deleted / renamed / misspelt / duplicated, text and CDATA after it, transpositions, stray end tags)",
              props=["C08"]),
     Contract("ofxtools.Parser:TreeBuilder.feed", args=[A_("content")], call=cdata_literal,
              ensures=[("cdata-is-literal", "result == []")], cases=lambda tier: [[c] for c in (" x", "x ", "  two  spaces  ", "\n  indented\n", "\tx\t", "x")],
